@@ -71,7 +71,7 @@ ForeignNext ==
   \/ /\ pc = "build" /\ \E v \in Vals : Build(1, v)
      /\ pc' = "marshal"
   \/ /\ pc = "marshal" /\ Marshal(1, RefMarshal(pk[1])) /\ pc' = "done"
-     /\ Emit([script |-> "dec", bytes |-> buf[1]])
+     /\ Emit([script |-> "dec", bytes |-> buf'[1]])
 
 \* dispatch: every (PT, FMT) with several bodies through the datagram decoder (C07)
 DispatchNext ==
